@@ -691,6 +691,18 @@ def c15(tier):
                    ping_timeout='none', close_timeout='none', actions=['silent', 'close']))
     specs.append(S('close-timeout-zero', 'close_timeout=0 disables the close timeout', K=K, ping_rate=0, ping_timeout='none', close_timeout='zero',
                    actions=['silent', 'text']))
+    ST = lambda name, what, **P: Spec(name, 'checks.timerstep', 'run_step', dict(P, xval_stride=P.get('xval_stride', 5)), what=what, logic=None, chunk=60,
+                                      expect_classes=(['poll'] if P.get('at_ready') else ['poll', 'unresponsive', 'close-timeout'] + (['ping'] if P.get('r') else [])))
+    WS = ('INDUCTIVE STEP: one pass of the real _regular() from an ARBITRARY timer state (poll_start, next_ping, last_pong, sent_close_time, closing flag '
+          'symbolic reals constrained only by the invariant every pass re-establishes; session time tau symbolic with tau_prev <= tau <= tau_prev + poll; '
+          'poll, ping_timeout, close_timeout symbolic or None or 0): Poll iff due and gap in [p, 2p); Ping iff a multiple of ping_rate was passed since the '
+          'last one and not closing; Unresponsive iff more than t since the last Pong; forced end iff close_timeout elapsed, and by c + p; invariant '
+          're-established - so the bounded-K conclusions hold for sessions of any length; ')
+    for r in ([0, 1, 7] if q else [0, 0.5, 1, 7, 30, 0.1]):
+        specs.append(ST('housekeeping-step-r%s' % r, WS + 'ping_rate=%s' % r, r=r))
+    specs.append(ST('housekeeping-step-rsym', WS + 'ping_rate a SYMBOLIC real in (0, 100000] (next_ping = k*r with k a symbolic integer; non-linear)', r='sym'))
+    specs.append(ST('housekeeping-step-at-ready', 'base case of the induction: the state _on_ready() leaves at session time 0 satisfies the invariant and the first '
+                    'pass yields the first Poll, no Ping, no timeout', r=7, at_ready=True))
     return run_property('C15', tier, specs, 'model_checking', 'keep-alive, timeouts, polling', ENV_ASSUMPTIONS + [
         'floats idealised as reals (z3 Real/Int arithmetic with ToInt for ceil)', 'zero handler time: the clock advances only inside the selector wait',
         'ping_rate from a concrete grid (ceil(t/r)*r is non-linear in a symbolic r); bound: K loop iterations'],
